@@ -211,6 +211,11 @@ pub fn scaled_bases(thorough: bool) -> (Vec<Base>, Value) {
     for s in 0..=a1max {
         progs.push((Program::new(vec![Op::Start(0), Op::Append(0, s), Op::End(0)], Entropy::Pattern), "A1"));
     }
+    // content blocks longer than the repair copy buffer (256 bytes at this scale), incompressible and
+    // constant content: cuts inside a block that takes several buffer fills
+    for e in [Entropy::Noise, Entropy::Constant] {
+        progs.push((Program::new(vec![Op::Start(0), Op::Append(0, 3 * scale::REPAIR_CACHE - 68), Op::Start(1), Op::Append(1, scale::REPAIR_CACHE + 44), Op::End(0), Op::Append(1, 5), Op::End(1)], e), "big-block"));
+    }
     if thorough {
         for p in families::bases(Entropy::Noise) {
             progs.push((p, "bases"));
